@@ -757,6 +757,43 @@ def run_history(ctx, cls, ops, lab, r):
                        "groups": [[rc.kind, rc.first, rc.size] for rc in model.recs]})
 
 
+def case_two_formulas(ctx, cls, rseed, count):
+    """Two formulas (variable managers) alive at the same time, groups created alternately in one and the other: each
+    keeps its own contiguous numbering and its own names."""
+    S.selfcheck()
+    r = ctx.rng("c11-two", cls, rseed)
+    for _ in range(count):
+        _SHARED.clear()
+        objs = [(Target(cls), Shadow()), (Target(cls), Shadow())]
+        done = []
+        ok = True
+        lab = r.choice([0, 0, 1, 2])
+        for pos in range(r.randint(2, 9)):
+            k = r.randrange(2)
+            T, model = objs[k]
+            op = random_op(r)
+            done.append([k, op])
+            where = "%s, two formulas alive, history %r (label style %d)" % (cls, done, lab)
+            ok = apply_op(ctx, T, model, op, pos, lab, r, where)
+            ctx.count("interleaved_ops_on_two_formulas")
+            for j, (Tj, mj) in enumerate(objs):
+                if not ok:
+                    break
+                st, nv = ctx.call(Tj.F.number_of_variables)
+                if nv != mj.numvar:
+                    ctx.violation("history:variable-count", "%s: formula %d has %r variables, its model %d" % (where, j, nv, mj.numvar))
+                    ok = False
+                ok = ok and check_names(ctx, Tj, mj, where + " (formula %d)" % j)
+            if not ok:
+                break
+        if ok:
+            for j, (Tj, mj) in enumerate(objs):
+                where = "%s, two formulas alive, history %r, formula %d" % (cls, done, j)
+                ok = ok and recheck(ctx, mj, where) and check_names(ctx, Tj, mj, where, fmt="y[{}]")
+        ctx.judged(("two", cls, lab, repr(done)), nontrivial=any(rc.size for _, m in objs for rc in m.recs),
+                   sample={"class": cls, "interleaved_history": done[:8]})
+
+
 # ------------------------------------------------------------------ random shapes
 def random_edges(r, pairs, density):
     return [list(p) for p in pairs if r.random() < density]
@@ -1024,5 +1061,7 @@ def workload(tier, seed):
     for cls in ("CNF", "OPB", "VM"):
         for b in range(3 if tier == "quick" else 40):
             yield "huge", {"cls": cls, "rseed": seed * 1000 + b}
+        for b in range(6 if tier == "quick" else 120):
+            yield "two_formulas", {"cls": cls, "rseed": seed * 1000 + b, "count": 25}
     for argv in CLI_FAMILIES:
         yield "cli", {"argv": argv}
